@@ -65,6 +65,62 @@ type caseGen struct {
 	frames int
 	noKey  bool
 	stats  []string
+
+	// parameter sets: "sprop" (in the SDP only), "inband" (SDP without sprop, the
+	// sets arrive in band ahead of the first IDR), "differ" (the SDP announces one
+	// pair, the publisher sends another in band)
+	psMode    string
+	psPair    int  // 1-based pair of repoParamSets the publisher currently uses
+	psPending bool // not yet delivered in band
+	psChanges bool // the publisher switches pairs now and then
+}
+
+// paramSetMode draws the class for a case whose SDP pair is base (0-based).
+func (g *caseGen) paramSetMode(base int, allow bool, outOf int) {
+	g.psMode, g.psPair = "sprop", base+1
+	if !allow {
+		return
+	}
+	switch rapid.IntRange(0, outOf-1).Draw(g.rt, "paramSetMode") {
+	case 0:
+		g.psMode, g.psPending = "inband", true
+		g.c.NoSprop = true
+		g.stats = append(g.stats, "ps:SDP-without-sprop,sets-in-band")
+	case 1:
+		g.psMode, g.psPending = "differ", true
+		g.psPair = (base+1)%len(repoParamSets) + 1
+		g.stats = append(g.stats, "ps:in-band-sets-differ-from-sprop")
+	default:
+		g.stats = append(g.stats, "ps:sprop-only")
+		return
+	}
+	g.psChanges = rapid.Bool().Draw(g.rt, "paramSetsChange")
+}
+
+// paramSets returns the in-band SPS+PPS frames the publisher sends ahead of the
+// key picture at t, if it sends any there.
+func (g *caseGen) paramSets(t int64) []timed {
+	if g.psMode == "sprop" || g.psMode == "" {
+		return nil
+	}
+	emit := g.psPending
+	if !emit && g.psChanges && rapid.IntRange(0, 3).Draw(g.rt, "switchSets") == 0 {
+		g.psPair = g.psPair%len(repoParamSets) + 1
+		emit = true
+		g.stats = append(g.stats, "ps:changed-mid-stream")
+	}
+	if !emit && rapid.IntRange(0, 2).Draw(g.rt, "repeatSets") == 0 {
+		emit = true
+		g.stats = append(g.stats, "ps:repeated-in-band")
+	}
+	if !emit {
+		return nil
+	}
+	g.psPending = false
+	return []timed{
+		{t: t, o: op{K: "v", Hdr: 0x67, PS: g.psPair, PTS: t, DTS: t}, vk: 0},
+		{t: t, o: op{K: "v", Hdr: 0x68, PS: g.psPair, PTS: t, DTS: t}, vk: 0},
+	}
 }
 
 func (g *caseGen) size(audio bool) int {
@@ -190,6 +246,9 @@ func (g *caseGen) gop() {
 		g.noKey = false
 		g.stats = append(g.stats, "gop:stream-starts-without-key")
 	}
+	if key == 0x65 {
+		ts = append(ts, g.paramSets(t0)...)
+	}
 	if rapid.IntRange(0, 7).Draw(g.rt, "sei") == 0 {
 		ts = append(ts, timed{t: t0, o: op{K: "v", Hdr: 0x06, Size: g.size(false), PTS: t0, DTS: t0}, vk: 0})
 		g.stats = append(g.stats, "gop:SEI-before-key")
@@ -275,12 +334,14 @@ func genCase(rt *rapid.T, disk bool, salt int) (*caseSpec, []string) {
 		rapid.Uint64().Draw(rt, "salt")
 	}
 	c.Fragment = rapid.SampledFrom([]int{1, 1, 1, 1, 1, 2, 2, 2, 3, 5, 0}).Draw(rt, "fragment")
-	ps := repoParamSets[rapid.IntRange(0, len(repoParamSets)-1).Draw(rt, "paramSet")]
+	base := rapid.IntRange(0, len(repoParamSets)-1).Draw(rt, "paramSet")
+	ps := repoParamSets[base]
 	c.SPS, c.PPS = b64hex(ps[0]), b64hex(ps[1])
 	ac := audioConfigs[rapid.IntRange(0, len(audioConfigs)-1).Draw(rt, "audioConfig")]
 	c.ASC, c.Rate = ac.asc, ac.rate
 	c.Path = "/" + rapid.StringMatching(`[a-z0-9]{1,6}(/[a-z0-9_]{1,6}){0,2}`).Draw(rt, "path")
 	g := &caseGen{rt: rt, c: c, F: int64(c.Fragment) * 90000, cad: 1024 * 90000 / int64(ac.rate)}
+	g.paramSetMode(base, c.Fragment > 0, 8)
 	if c.Fragment == 0 {
 		g.F = 90000
 	}
@@ -308,6 +369,11 @@ func genCase(rt *rapid.T, disk bool, salt int) (*caseSpec, []string) {
 		}
 		for k := 0; k < 4; k++ {
 			t += g.F + 90000
+			if g.psPending {
+				for _, x := range g.paramSets(t) {
+					c.Ops = append(c.Ops, x.o)
+				}
+			}
 			c.Ops = append(c.Ops, op{K: "v", Hdr: 0x65, Size: 9, PTS: t, DTS: t})
 			if k < 3 {
 				// half a second behind its key frame, so that with fragment 0 the train's own
